@@ -9,6 +9,8 @@ term :=  ["i", n] | ["f", "4.0"] | ["b", true] | ["np", "int64", "4"] | ["c", "1
        | ["r", name]                      the *identical* object bound to name
        | ["fresh", name]                  an equal-but-not-identical rebuild of name's term
        | ["n", clsname, [term...]]        node; clsname resolved in the class registry
+       | ["let", [[name, term]...], body] local definitions, then body: ["r", name] inside body
+                                          gives the identical object each time (a DAG)
 
 A reference to a name that is not defined resolves to Variable("_undef"), so every
 subsequence of a list of definitions is itself a valid list.
@@ -125,7 +127,35 @@ class Builder:
                 return self.p.Variable("_nocls_" + str(t[1]))
             args = [self.build(x, fresh) for x in t[2]]
             return cls(*args)
+        if k == "let":
+            saved = dict(self.defs)
+            try:
+                for name, sub in t[1]:
+                    self.defs[name] = (sub, self.build(sub, fresh))
+                return self.build(t[2], fresh)
+            finally:
+                self.defs = saved
         raise ValueError(f"bad term {t!r}")
+
+
+def expand(t, env=None):
+    """The term with every local definition inlined (no sharing)."""
+    env = env or {}
+    k = t[0]
+    if k == "let":
+        e2 = dict(env)
+        for name, sub in t[1]:
+            e2[name] = expand(sub, e2)
+        return expand(t[2], e2)
+    if k in ("r", "fresh") and t[1] in env:
+        return env[t[1]]
+    if k == "n":
+        return ["n", t[1], [expand(x, env) for x in t[2]]]
+    if k == "t":
+        return ["t", [expand(x, env) for x in t[1]]]
+    if k in ("im", "d"):
+        return [k, [[kk, expand(v, env)] for kk, v in t[1]]]
+    return t
 
 
 def subterms(t):
@@ -137,11 +167,13 @@ def subterms(t):
         return list(t[1])
     if k in ("im", "d"):
         return [v for _, v in t[1]]
+    if k == "let":
+        return [expand(t)]
     return []
 
 
 def is_expr_term(t):
-    return t[0] in ("n", "r", "fresh")
+    return t[0] in ("n", "r", "fresh", "let")
 
 
 # {{{ generator
